@@ -98,6 +98,7 @@ func (o *offsetDB) parseOne(content string, offsets fpOffsets) (string, error) {
 	if err != nil {
 		return "", fmt.Errorf("can't parse file: %w", err)
 	}
+	filename = unquoteName(filename)
 	inodeStr, content, err = o.parseLine(content, "  inode: ")
 	if err != nil {
 		return "", fmt.Errorf("can't parse inode: %w", err)
@@ -170,10 +171,10 @@ func (o *offsetDB) parseStreams(content string, streams streamsOffsets) (string,
 		if pos < 0 {
 			return "", fmt.Errorf("wrong offsets format, no separator %q", line)
 		}
-		stream := pipeline.StreamName(line[4:pos])
-		if len(stream) == 0 {
+		if pos == 4 {
 			return "", fmt.Errorf("wrong offsets format, empty stream, %s", content)
 		}
+		stream := pipeline.StreamName(unquoteName(line[4:pos]))
 
 		_, has := streams[stream]
 		if has {
@@ -224,6 +225,27 @@ func (o *offsetDB) parseOptionalLine(content string, prefix string) (string, str
 	return "", content, nil
 }
 
+// appendName appends a file or stream name. Names that would break the
+// line-oriented format (empty, containing a line feed) or that start with a
+// double quote are written as a double-quoted string with escapes.
+func appendName(buf []byte, name string) []byte {
+	if name == "" || name[0] == '"' || strings.IndexByte(name, '\n') >= 0 {
+		return strconv.AppendQuote(buf, name)
+	}
+	return append(buf, name...)
+}
+
+// unquoteName is the inverse of appendName; anything that is not a valid
+// quoted string (e.g. written by an older version) is taken literally.
+func unquoteName(s string) string {
+	if len(s) >= 2 && s[0] == '"' {
+		if u, err := strconv.Unquote(s); err == nil {
+			return u
+		}
+	}
+	return s
+}
+
 func safeSubstring(s string, length int) string {
 	if len(s) < length {
 		return s
@@ -266,7 +288,7 @@ func (o *offsetDB) save(jobs map[pipeline.SourceID]*Job, mu *sync.RWMutex) {
 		}
 
 		o.buf = append(o.buf, "- file: "...)
-		o.buf = append(o.buf, job.filename...)
+		o.buf = appendName(o.buf, job.filename)
 		o.buf = append(o.buf, '\n')
 
 		o.buf = append(o.buf, "  inode: "...)
@@ -284,7 +306,7 @@ func (o *offsetDB) save(jobs map[pipeline.SourceID]*Job, mu *sync.RWMutex) {
 		o.buf = append(o.buf, "  streams:\n"...)
 		for _, strOff := range job.offsets {
 			o.buf = append(o.buf, "    "...)
-			o.buf = append(o.buf, string(strOff.Stream)...)
+			o.buf = appendName(o.buf, string(strOff.Stream))
 			o.buf = append(o.buf, ": "...)
 			o.buf = strconv.AppendUint(o.buf, uint64(strOff.Offset), 10)
 			o.buf = append(o.buf, '\n')
